@@ -14,7 +14,8 @@ PROPERTY = 'C20'
 LEVEL = 'exploration'
 RULE = ('one case = one sequence of configuration operations (declare +- default, '
         'redeclare, load/load_from_dict/load_from_file with _override and '
-        '_allow_undeclared, flag values, reset, save_and_restore plain / with values '
+        '_allow_undeclared, flag values, reset, save_and_restore plain / with values, called at once '
+        'or decorated now and called later (twice), '
         '/ raising / nested, attribute assignment) on a fresh _Configuration; after '
         'each operation `in`, item, attribute, holder.value, holder.default and '
         '_asdict() are compared with the dictionary model for every key of the '
@@ -53,12 +54,21 @@ ALPHABET = [
     ['snr', {}, [['load', {'alpha': 7}, True, False]], False],
     ['snr', {'alpha': 8}, [], False],
     ['snr', {'alpha': 8, 'beta': 'b'}, [['load', {'beta': 0}, True, False]], True],
+    # decoration and call separated: the wrapper is made now and called later
+    # (possibly twice), with loads in between
+    ['snr_dec', 0, {}],
+    ['snr_dec', 1, {'alpha': 8}],
+    ['snr_call', 0, [['load', {'alpha': 7}, True, False]], False],
+    ['snr_call', 0, [], True],
+    ['snr_call', 1, [['load', {'gamma': 14}, True, False]], False],
     ['setattr', 'alpha', 1],
     ['file', '{"alpha": 11, "gamma": 12}', True, False],
     ['file', 'alpha: 13\nbeta: {x: 1}\n', False, False],
     ['file', '{not yaml: [', True, False],
     ['file', '- 1\n- 2\n', True, False],
 ]
+PREFIX = [['declare', 'alpha', 1], ['declare', 'beta', None],
+          ['declare', 'gamma', 'dflt']]
 VALUES = [0, 1, -1, 2.5, 'txt', '', None, True, False, [1, 2], {'k': 'v'},
           'alpha']
 
@@ -68,6 +78,12 @@ def enumerated(tier):
   for length in range(1, n + 1):
     for seq in itertools.product(range(len(ALPHABET)), repeat=length):
       yield {'seq': list(seq)}
+  # the same sequences on a configuration whose keys are already declared
+  declaring = {i for i, op in enumerate(ALPHABET) if op[0] == 'declare'}
+  for length in range(1, n + 1):
+    for seq in itertools.product(range(len(ALPHABET)), repeat=length):
+      if not declaring.intersection(seq):
+        yield {'seq': list(seq), 'pre': True}
   yield {'e2e': 1}
   yield {'e2e': 2}
   yield {'invalid_keys': 1}
@@ -124,6 +140,7 @@ class Model:
     self.decl = {}     # key -> default or NOT_SET
     self.loaded = {}
     self.flags = {}
+    self.wrappers = {}   # slot -> values given at decoration time
 
   def snapshot(self):
     return (dict(self.decl), dict(self.loaded), dict(self.flags))
@@ -184,6 +201,19 @@ class Model:
         self.apply(sub)
       self.loaded = saved
       return 'Boom' if raises else None
+    if kind == 'snr_dec':
+      self.wrappers[op[1]] = dict(op[2])
+      return None
+    if kind == 'snr_call':
+      _, slot, inner, raises = op
+      if slot not in self.wrappers:
+        return None
+      saved = dict(self.loaded)
+      self.load(self.wrappers[slot], True, False)
+      for sub in inner:
+        self.apply(sub)
+      self.loaded = saved
+      return 'Boom' if raises else None
     if kind == 'setattr':
       return 'AttributeError'
     if kind == 'file':
@@ -240,6 +270,31 @@ def apply_real(conf, holders, op):
     r = wrapped()
     if r != 'ret':
       raise AssertionError('save_and_restore lost the return value')
+  elif kind == 'snr_dec':
+    _, slot, values = op
+    cell = holders.setdefault('_snr_cells', {}).setdefault(slot, {})
+
+    def body(_cell=cell):
+      for sub in _cell.get('inner', []):
+        try:
+          apply_real(conf, holders, sub)
+        except Exception:  # pylint: disable=broad-except
+          pass
+      if _cell.get('raises'):
+        raise Boom()
+      return 'ret'
+
+    if values:
+      cell['wrapped'] = conf.save_and_restore(**values)(body)
+    else:
+      cell['wrapped'] = conf.save_and_restore(body)
+  elif kind == 'snr_call':
+    _, slot, inner, raises = op
+    cell = holders.get('_snr_cells', {}).get(slot)
+    if cell is not None:
+      cell['inner'], cell['raises'] = inner, raises
+      if cell['wrapped']() != 'ret':
+        raise AssertionError('save_and_restore lost the return value')
   elif kind == 'setattr':
     setattr(conf, op[1], op[2])
   elif kind == 'file':
@@ -444,4 +499,6 @@ def run_case(case):
   if 'invalid_keys' in case:
     return run_invalid_keys()
   ops = case['ops'] if 'ops' in case else [ALPHABET[i] for i in case['seq']]
+  if case.get('pre'):
+    ops = PREFIX + ops
   return run_ops(ops, case)
